@@ -256,3 +256,178 @@ def _call_pushes(ctx, f, bb, pushers):
         if c.bb == bb:
             return any(g.path in pushers for g in c.all_targets())
     return False
+
+
+# ---------------------------------------------------------------------------
+def hdrcount(pid):
+    """R-HDRCOUNT: the header counts the sectors of the MiniFAT chain (word 64) and, in V4, of the directory chain
+    (word 40).  Whoever changes the length of one of those chains - in whatever function - rewrites the count."""
+    def run(ctx):
+        res = RuleResult("R-HDRCOUNT(%s)" % pid, "every call that lengthens or shortens a chain whose sector count is kept in the header (MiniFAT chain, directory chain) is followed, on every Ok path of the same function, by the rewrite of that header word")
+        tbl = ctx.table("follow").get("counted_chains", [])
+        resizers = r"(::extend_chain|::free_chain|::free_chain_after|Chain::<'a, F>::set_len|Chain::<'a, F>::free)$"
+        n = 0
+        for f in ctx.fx.fns.values():
+            if f.path.startswith("internal::chain::") or f.path.startswith("internal::alloc::"):
+                continue
+            v = view(ctx, f)
+            pr = None
+            for bb, c in sorted(v.calls.items()):
+                if not re.search(resizers, c.name) or "MiniChain" in c.name:
+                    continue
+                pr = pr or Prov(f)
+                args = [pr.operand(a) for a in c.term["args"]]
+                for row in tbl:
+                    if not any(row["start"] in a for a in args):
+                        continue
+                    n += 1
+                    if "header_word" in row:
+                        fixes = [c2 for c2 in v.calls.values() if c2.name.endswith("seek_within_header") and len(c2.term["args"]) > 1 and pr.operand(c2.term["args"][1]) == "const:%d" % row["header_word"]]
+                    else:
+                        fixes = [c2 for c2 in v.calls.values() if re.search(row["via"], c2.name)]
+                    oks = set()
+                    for c2 in fixes:
+                        oks.update(v.ok_nodes(c2.bb) or [("t", c2.bb)])
+                    starts = v.ok_nodes(bb) or list(v.pg.succ[("t", bb)])
+                    reach = v.pg.reach(starts, oks | set(v.all_err_nodes()))
+                    key = "R-HDRCOUNT/%s/%s/%s" % (f.path, row["what"], c.name.split("::")[-1])
+                    if any(r in reach for r in v.pg.returns()):
+                        res.fail(Finding(res.rule, key + "/count-not-rewritten", "%s changes the length of the %s chain and the function can return Ok without rewriting the header's %s count (%s): the byte image no longer reopens in strict mode" % (
+                            c.name.split("::")[-1], row["what"], row["what"], ("header word %d" % row["header_word"]) if "header_word" in row else row["via"].rstrip("$")), f, c.term["span"]))
+                    else:
+                        res.ok({"function": f.path, "chain": row["what"], "resized_by": c.name.split("::")[-1], "line": c.line, "count_rewritten_at": sorted(x.line for x in fixes)}, nontrivial=True)
+        res.floor("counted-chain resize sites", n, ctx.table("floors").get("hdrcount_sites", 0))
+        return res
+    return run
+
+
+# ---------------------------------------------------------------------------
+def unlink(pid):
+    """R-UNLINK: a directory slot is released (free_dir_entry) only for a node whose two sibling links were
+    examined since the variable naming it last changed: a node released with unexamined links takes its
+    subtree out of the sibling tree."""
+    def run(ctx):
+        res = RuleResult("R-UNLINK(%s)" % pid, "between the last assignment of the id that is handed to free_dir_entry and that call, both sibling links of that node are compared with NO_STREAM on every path (the node is released only once it is known to be a leaf, or its only child has been taken as the replacement)")
+        n = 0
+        for f in ctx.fx.fns.values():
+            v = view(ctx, f)
+            pr = None
+            for bb, c in sorted(v.calls.items()):
+                if not c.name.endswith("Directory::<F>::free_dir_entry") or len(c.term["args"]) < 2:
+                    continue
+                pr = pr or Prov(f)
+                m = re.match(r"^var:(\w+)$", pr.operand(c.term["args"][1]))
+                if not m:
+                    continue
+                var = m.group(1)
+                names = {nm: l for l, nm in f.debug_names().items()}
+                l = names.get(var)
+                if l is None:
+                    continue
+                g = _guards(ctx, f)
+                defs = [("t", d[0]) if d[1] == "t" else ("s", d[0], d[1]) for d in pr.defs.get(l, [])]
+                for link in ("left_sibling", "right_sibling"):
+                    n += 1
+                    rx = re.compile(r"^\((Eq|Ne)\(Directory::dir_entry\(param:self,var:%s\)\.%s,const:(consts::)?NO_STREAM\)\)$" % (re.escape(var), link))
+                    tested = set()
+                    for b, k, val, vals in _edges(f):
+                        if any(rx.match(a) for a in g.describe_all(b, val, vals)):
+                            tested.update(v.pg.edge_node(b, f.succ(b)[k]))
+                    # the other link's tests are tracked so that `l != NO .. else if l == NO` is not walked as a path
+                    other = "right_sibling" if link == "left_sibling" else "left_sibling"
+                    rxo = re.compile(r"^\((Eq|Ne)\(Directory::dir_entry\(param:self,var:%s\)\.%s,const:(consts::)?NO_STREAM\)\)$" % (re.escape(var), other))
+                    facts = {}
+                    for b, k, val, vals in _edges(f):
+                        for a in g.describe_all(b, val, vals):
+                            mo = rxo.match(a)
+                            if mo:
+                                for en in v.pg.edge_node(b, f.succ(b)[k]):
+                                    facts[en] = mo.group(1)
+                    bad = None
+                    for d in defs:
+                        if _reach_consistent(v.pg, d, ("t", bb), tested | (set(defs) - {d}), facts):
+                            bad = d
+                            break
+                    key = "R-UNLINK/%s/%s" % (f.path, link)
+                    if bad is not None:
+                        line = f.blocks[bad[1]]["stmts"][bad[2]]["span"]["line"] if bad[0] == "s" else f.blocks[bad[1]]["term"]["span"]["line"]
+                        res.fail(Finding(res.rule, key + "/released-with-unexamined-link", "the node named by `%s` (assigned at line %d) can reach free_dir_entry (line %d) without its %s having been compared with NO_STREAM: whatever hangs below that link is cut out of the sibling tree (unreachable by name, missing from listings)" % (var, line, c.line, link), f, c.term["span"]))
+                    else:
+                        res.ok({"function": f.path, "released": var, "link": link, "definitions": len(defs)}, nontrivial=True)
+        res.floor("release sites x links", n, ctx.table("floors").get("unlink_sites", 0))
+        return res
+    return run
+
+
+def _reach_consistent(pg, src, dst, avoid, facts):
+    """Is dst reachable strictly after src, avoiding `avoid`, along a path that never takes two edges carrying
+    contradictory facts about one tracked predicate (facts: edge node -> 'Eq' | 'Ne')?"""
+    from collections import deque
+    seen = set()
+    dq = deque((m, None) for m in pg.succ.get(src, ()) if m not in avoid)
+    while dq:
+        n, st = dq.popleft()
+        if n in facts:
+            if st is not None and st != facts[n]:
+                continue
+            st = facts[n]
+        if (n, st) in seen:
+            continue
+        seen.add((n, st))
+        if n == dst:
+            return True
+        for m in pg.succ.get(n, ()):
+            if m not in avoid:
+                dq.append((m, st))
+    return False
+
+
+# ---------------------------------------------------------------------------
+def blankown(pid):
+    """R-BLANKOWN: a blank (unallocated) entry enters the in-memory directory table only where a slot is
+    released after it was unlinked (free_dir_entry, which also writes the file) or a new slot is appended
+    (allocate_dir_entry).  Blanking a slot anywhere else wipes the links of a node that is still in the tree."""
+    from dataflow import forward_taint
+
+    def run(ctx):
+        res = RuleResult("R-BLANKOWN(%s)" % pid, "DirEntry::unallocated() values reach the in-memory directory table only in free_dir_entry and allocate_dir_entry")
+        allowed = set(ctx.table("reloc").get("blank_writers", ["internal::directory::Directory::<F>::free_dir_entry", "internal::directory::Directory::<F>::allocate_dir_entry"]))
+        n = 0
+        for f in ctx.fx.fns.values():
+            v = view(ctx, f)
+            blanks = [c for c in v.calls.values() if c.name.endswith("DirEntry::unallocated") and not c.term["dest"]["proj"]]
+            if not blanks:
+                continue
+            pr = Prov(f)
+            # locals that are (references into) the table
+            slots = set()
+            for c in v.calls.values():
+                if c.name.endswith("Directory::<F>::dir_entry_mut") or (c.name.split("::")[-1] in ("index_mut", "get_mut", "last_mut", "first_mut", "iter_mut") and c.term["args"] and pr.operand(c.term["args"][0]).endswith(".dir_entries")):
+                    slots |= forward_taint(f, {c.term["dest"]["local"]})
+            for blk in f.blocks:
+                for st in blk["stmts"]:
+                    if st["s"] == "assign" and st["rv"]["r"] == "ref" and any(e["p"] == "field" and e["name"] == "dir_entries" for e in st["rv"]["place"]["proj"]):
+                        slots |= forward_taint(f, {st["place"]["local"]})
+            for b in blanks:
+                t = forward_taint(f, {b.term["dest"]["local"]}, through_refs=False)
+                hits = []
+                for bb, blk in enumerate(f.blocks):
+                    if blk["cleanup"]:
+                        continue
+                    for st in blk["stmts"]:
+                        if st["s"] == "assign" and st["place"]["local"] in slots and st["place"]["proj"] and st["rv"]["r"] == "use" and st["rv"]["op"]["k"] in ("move", "copy") and st["rv"]["op"]["place"]["local"] in t:
+                            hits.append(("whole-entry store", st["span"]))
+                for c in v.calls.values():
+                    args = c.term["args"]
+                    if any(a["k"] in ("move", "copy") and a["place"]["local"] in t for a in args) and any(a["k"] in ("move", "copy") and a["place"]["local"] in slots for a in args):
+                        hits.append((c.name.split("::")[-1], c.term["span"]))
+                for (what, span) in hits:
+                    n += 1
+                    key = "R-BLANKOWN/%s/%s" % (f.path, what)
+                    if f.path in allowed:
+                        res.ok({"function": f.path, "blank_enters_table_by": what, "line": span["line"]}, nontrivial=True)
+                    else:
+                        res.fail(Finding(res.rule, key + "/slot-blanked-outside-release", "%s puts DirEntry::unallocated() into a slot of the directory table (%s): outside free_dir_entry/allocate_dir_entry the slot still belongs to a node of the sibling tree, whose links are wiped (its subtree becomes unreachable by name)" % (f.path.split("::")[-1], what), f, span))
+        res.floor("blank-entry stores", n, ctx.table("floors").get("blankown_sites", 0))
+        return res
+    return run
